@@ -199,6 +199,18 @@ func parseTrack(d []byte, ti int, strict bool) (*SMFTrack, *SMFError) {
 				}
 				sawEOT = true
 				tr.EOTTick = tick
+			case 0x00:
+				if ln != 2 && ln != 0 {
+					return nil, smfErr("meta-len", "track %d: sequence number with length %d", ti, ln)
+				}
+			case 0x20, 0x21:
+				if ln != 1 {
+					return nil, smfErr("meta-len", "track %d: channel/port prefix (FF %02X) with length %d", ti, typ, ln)
+				}
+			case 0x54:
+				if ln != 5 {
+					return nil, smfErr("meta-len", "track %d: SMPTE offset with length %d", ti, ln)
+				}
 			case 0x51:
 				if ln != 3 {
 					return nil, smfErr("meta-len", "track %d: tempo with length %d", ti, ln)
